@@ -303,6 +303,9 @@ def cases(ctx):
             yield h
 
 
+_LAST_CONNS = {}
+
+
 def apply_call(c, call):
     """Perform one recorded call through the public API.  Returns (exc type name or '', ret)."""
     import circuitgraph as cg
@@ -327,7 +330,11 @@ def apply_call(c, call):
             c.set_type(s1(a["ns"]), a["t"])
         elif op == "add_blackbox":
             bb = cg.BlackBox(a["bb"]["type"], a["bb"]["ins"], a["bb"]["outs"])
-            c.add_blackbox(bb, a["name"], {p: s1(tg) for p, tg in a["conns"]})
+            conns = {p: s1(tg) for p, tg in a["conns"]}
+            if a.get("reuse_conns") and _LAST_CONNS.get("d") is not None and _LAST_CONNS["spec"] == a["conns"]:
+                conns = _LAST_CONNS["d"]          # the very same dict object the previous instance was given
+            _LAST_CONNS["d"], _LAST_CONNS["spec"] = conns, a["conns"]
+            c.add_blackbox(bb, a["name"], conns)
         elif op == "add_subcircuit":
             c.add_subcircuit(build(a["sc"]), a["name"], {p: s1(tg) for p, tg in a["conns"]}, strip_io=a["strip"])
         elif op == "fill_blackbox":
